@@ -49,6 +49,8 @@ def gen_scenario(batch_seed, i, tier):
     cli = rng.random() < 0.6
     kind = rng.choice(opts.KINDS)
     content, mkw = opts.gen_symbol(rng, cli, seq=is_seq, maxlen=60 if is_seq else 40)
+    if 'error' not in mkw and rng.random() < 0.1:
+        mkw['error'] = None     # CLI spelling: --error=-
     skw = opts.gen_ser_opts(rng, kind, cli)
     if is_seq:
         routes = ['seq_ref', 'seq_save']
@@ -90,6 +92,7 @@ def gen_scenario(batch_seed, i, tier):
             'ext_case': _randcase(rng, kind), 'kind_case': _randcase(rng, kind), 'svgz_case': _randcase(rng, 'svgz'),
             'clock': clock, 'bufsize': rng.choice((0, 16, 512, 8192)), 'faults': faults,
             'terminal': {'border': rng.choice((None, 0, 1, 4)), 'compact': rng.random() < 0.4},
+            'argv_style': rng.choice((0, rng.getrandbits(32), rng.getrandbits(32))),
             'seq_name': rng.choice(('seq', 'seq', 'seq', 'se.q', 'my.seq.v2', 's{e}q', 's{}q', '{0}', 'out.d/seq', 'a-01-02', 's%dq'))}
 
 
@@ -199,7 +202,7 @@ def execute(sc):
                 return Outcome(r, gzip.decompress(raw), files=stamp_files(before), extra=p)
             if r == 'cli':
                 p = 'cli-%s.%s' % (tag, ext)
-                argv = opts.make_argv(mkw) + opts.ser_argv(skw) + ['--output=' + p, content]
+                argv = opts.stylize(opts.make_argv(mkw) + opts.ser_argv(skw) + ['--output=' + p, content], sc.get('argv_style', 0))
                 pr = world.run_cli(argv, plan=w.plan)
                 o = Outcome(r, fs.files.get(p) if pr['status'] == 0 else None, files=stamp_files(before), extra=p)
                 o.proc = pr
@@ -209,7 +212,7 @@ def execute(sc):
                 return o
             if r == 'cli_svgz':
                 p = 'clisvgz-%s.%s' % (tag, sc.get('svgz_case', 'svgz'))
-                argv = opts.make_argv(mkw) + opts.ser_argv(skw) + ['--output=' + p, content]
+                argv = opts.stylize(opts.make_argv(mkw) + opts.ser_argv(skw) + ['--output=' + p, content], sc.get('argv_style', 0))
                 pr = world.run_cli(argv, plan=w.plan)
                 raw = fs.files.get(p) if pr['status'] == 0 else None
                 o = Outcome(r, gzip.decompress(raw) if raw else None, files=stamp_files(before), extra=p)
@@ -220,7 +223,7 @@ def execute(sc):
                 return o
             if r == 'cli_terminal':
                 t = sc['terminal']
-                argv = opts.make_argv(mkw) + ([] if t['border'] is None else ['--border=%d' % t['border']]) + (['--compact'] if t['compact'] else []) + [content]
+                argv = opts.stylize(opts.make_argv(mkw) + ([] if t['border'] is None else ['--border=%d' % t['border']]) + (['--compact'] if t['compact'] else []) + [content], sc.get('argv_style', 0))
                 pr = world.run_cli(argv, plan=w.plan)
                 o = Outcome(r, None, files=stamp_files(before))
                 o.proc = pr
@@ -270,7 +273,7 @@ def execute(sc):
                 return o
             if r == 'seq_cli':
                 base = '%s-cli-%s' % (sc.get('seq_name', 'seq'), tag)
-                argv = opts.make_argv(mkw, seq=True) + opts.ser_argv(skw) + ['--output=%s.%s' % (base, ext), content]
+                argv = opts.stylize(opts.make_argv(mkw, seq=True) + opts.ser_argv(skw) + ['--output=%s.%s' % (base, ext), content], sc.get('argv_style', 0))
                 pr = world.run_cli(argv, plan=w.plan)
                 o = Outcome(r, None, files=stamp_files(before), extra=base)
                 o.proc = pr
